@@ -13,7 +13,7 @@ CONSTANTS
   MAXS = 2
   SidsUsed = @SIDS@
   ESs = {TRUE, FALSE}
-  CKinds = {"HEADERS", "DATA", "RST"}
+  CKinds = {"HEADERS", "DATA", "RST", "RACE"}
   Reqs = {"post"}
   Trailers = {"trailers"}
   DataLens = {1, 2, 3}
@@ -22,7 +22,7 @@ CONSTANTS
   IwsVals <- Absent
   MfsVals <- Absent
   RstCodes = {8}
-  CLs <- ClOne
+  CLs <- @CLS@
   HOps = {"read", "ret", "closebody"}
   ReadLens = {1, 3}
   WriteLens = {1}
